@@ -64,8 +64,23 @@ def r1_bits(ctx, F, rule='C11-R1'):
             b = cb.b
             ctx.touched(b)
             sites = [(c, 'clear') for c in cb.eb_remove] + [(c, 'test') for c in cb.eb_contains]
-            if not cb.eb_remove or not cb.eb_contains:
+            if not cb.eb_remove or not (cb.eb_contains or cb.eb_iter_heads):
                 raise AnchorMissing('%s: IdSet::remove / IdSet::contains sites' % b.path)
+            # bits walked directly: the property reported for bit i is properties[i]
+            from taint import origins as _org
+            for (h, sc) in cb.eb_iter_heads:
+                gets = [g for g in b.calls_to('slice::get', 'Index::index', 'Vec::get') if len(g.args) > 1 and
+                        any(isinstance(o, tuple) and o[0] == 'proj' and o[1] is h for o in _org(b, g.args[1]))]
+                okg = bool(gets)
+                for g in gets:
+                    recv = noref(b.trace(b.val(g.args[0]), ('Deref::deref', 'Vec::as_slice')))
+                    src_ok = recv.kind == 'arg' or (recv.kind == 'call' and b.call_at(recv.key) is not None and
+                                                    b.call_at(recv.key).is_('Model::properties'))
+                    okg = okg and src_ok
+                ctx.check(okg, rule, 'index@test', b,
+                          good='the set bits are walked and bit i selects properties()[i]',
+                          bad='%s: the eventually bits are walked, but the bit index does not select properties()[i]: '
+                              'another property is reported' % strat, span=h.span)
             for c, what in sites:
                 ok = enumerate_index_of_properties(b, b.val(c.args[1]))
                 ctx.check(ok, rule, 'index@%s' % what, b,
@@ -75,7 +90,8 @@ def r1_bits(ctx, F, rule='C11-R1'):
                               'is cleared/tested' % (strat, what, b.val(c.args[1])), span=c.span)
             # the cleared set and the tested set are the same local
             rs = set(noref(b.val(c.args[0])) for c in cb.eb_remove)
-            ts = set(noref(b.val(c.args[0])) for c in cb.eb_contains)
+            ts = set(noref(b.val(c.args[0])) for c in cb.eb_contains) | \
+                set(noref(b.val(sc.args[0])) for (h, sc) in cb.eb_iter_heads)
             ctx.check(rs == ts and len(rs) == 1, rule, 'same-bitset', b,
                       good='cleared and tested bit set are the same local',
                       bad='%s: bits are cleared in %s but tested in %s' % (strat, rs, ts))
